@@ -372,6 +372,45 @@ fn sweep(sm: &mut Summary, stats: &mut std::collections::BTreeMap<String, u64>, 
             }
         }
     }
+    // two families the plain sweep cannot reach with its alphabet and depth:
+    // (a) rules pinned at the START of the URL (`|https://a.b` + body [+ `|`]): a left-anchored rule only
+    //     matches URLs that begin with its literal text, i.e. with scheme and host;
+    // (b) hostname-anchored rules whose remainder is regex-type (`||b*^a`, `||a.b^*a`): the remainder
+    //     must match directly AFTER the anchored host, not somewhere in scheme or subdomain.
+    let mut extra: Vec<String> = vec![];
+    for pre in ["|https://a.b", "|http://b.a.b", "|https://a"] {
+        extra.push(pre.to_string());
+        extra.push(format!("{}|", pre));
+        for b in bodies.iter().filter(|b| b.len() <= 2.max(maxlen - 1)) {
+            extra.push(format!("{}{}", pre, b));
+            extra.push(format!("{}{}|", pre, b));
+        }
+    }
+    for h in ["b", "a.b", "ab.b", "a"] {
+        for head in ["*", "^"] {
+            for b in bodies.iter().filter(|b| b.len() <= 2.max(maxlen - 1)) {
+                extra.push(format!("||{}{}{}", h, head, b));
+            }
+        }
+    }
+    for rule in extra {
+        let Ok(f) = NetworkFilter::parse(&rule, true, Default::default()) else { continue };
+        if degenerate(&rule) {
+            continue;
+        }
+        rules += 1;
+        for (u, r, lc) in &reqs {
+            let Some(hs) = host_start(r) else { continue };
+            let Some(want) = reference(&rule, lc.as_bytes(), r.hostname.as_bytes(), hs) else { continue };
+            let mut rm = RegexManager::default();
+            let got = f.matches(r, &mut rm);
+            sm.oracle_evaluations += 1;
+            *stats.entry(if want { "sweep_anchored_families_match".into() } else { "sweep_anchored_families_no_match".into() }).or_insert(0) += 1;
+            if got != want {
+                sm.failure(None, &format!("sweep: rule {:?} on {:?}: matches = {}, ABP semantics = {}", rule, u, got, want), json!({"rule": rule, "url": u}));
+            }
+        }
+    }
     stats.insert("sweep_rules".into(), rules);
     stats.insert("sweep_requests".into(), reqs.len() as u64);
 }
